@@ -258,3 +258,147 @@ Section Link.
     exists d'. auto.
   Qed.
 End Link.
+
+(* ---- the documented evaluation does not depend on the order of object members -------------------- *)
+Lemma ins_member_perm kc : forall l, Permutation (ins_member kc l) (kc :: l).
+Proof.
+  induction l as [|h r IH]; simpl; [apply Permutation_refl|].
+  destruct (bytes_ltb _ _); [|apply Permutation_refl].
+  eapply perm_trans; [apply perm_skip; exact IH|apply perm_swap].
+Qed.
+Lemma sort_members_perm : forall l, Permutation (sort_members l) l.
+Proof.
+  induction l as [|c r IH]; simpl; [constructor|].
+  eapply perm_trans; [apply ins_member_perm|apply perm_skip; exact IH].
+Qed.
+
+Section ObjAllPerm.
+  Variable F : decl -> sres.
+  Definition m_ok (kc : bytes * decl) : bool := match F (snd kc) with SFail => false | _ => true end.
+  Definition m_bind (kc : bytes * decl) : list (bytes * value) :=
+    match F (snd kc) with SVal v => [(fst kc, v)] | _ => [] end.
+
+  Lemma obj_all_char : forall l o,
+    obj_all F l o = if forallb m_ok l then Some (set_all (flat_map m_bind l) o) else None.
+  Proof.
+    induction l as [|[k a] r IH]; intro o; simpl; [reflexivity|].
+    unfold m_ok at 1, m_bind at 1. simpl. destruct (F a); simpl; try reflexivity; apply IH.
+  Qed.
+
+  Lemma m_bind_nodup : forall l, NoDup (map fst l) -> NoDup (map fst (flat_map m_bind l)).
+  Proof.
+    induction l as [|[k a] r IH]; intro N; simpl; [constructor|]. inversion N as [|? ? Hn Nr]; subst.
+    assert (Hin : forall k0, In k0 (map fst (flat_map m_bind r)) -> In k0 (map fst r)).
+    { clear. induction r as [|[k' a'] r IHr]; simpl; [auto|]. intros k0 H. rewrite map_app in H.
+      apply in_app_or in H as [H|H]; [|right; apply IHr; exact H].
+      unfold m_bind in H. simpl in H. destruct (F a'); simpl in H; try contradiction. destruct H as [H|[]]. left. exact H. }
+    rewrite map_app. unfold m_bind at 1. simpl. destruct (F a); simpl; try (apply IH; exact Nr).
+    constructor; [|apply IH; exact Nr]. intro H. apply Hn, Hin, H.
+  Qed.
+
+  Lemma obj_all_perm l l' o : NoDup (map fst l) -> osorted o -> Permutation l l' ->
+    obj_all F l o = obj_all F l' o.
+  Proof.
+    intros N S P. rewrite !obj_all_char.
+    assert (E : forallb m_ok l = forallb m_ok l').
+    { destruct (forallb m_ok l) eqn:E1.
+      - symmetry. apply forallb_forall. intros x Hx. rewrite forallb_forall in E1. apply E1.
+        eapply Permutation_in; [apply Permutation_sym; exact P|exact Hx].
+      - destruct (forallb m_ok l') eqn:E2; [|reflexivity]. rewrite forallb_forall in E2.
+        assert (forallb m_ok l = true); [|congruence]. apply forallb_forall. intros x Hx. apply E2.
+        eapply Permutation_in; eauto. }
+    rewrite <- E. destruct (forallb m_ok l); [|reflexivity]. f_equal.
+    apply set_all_perm; [apply m_bind_nodup; exact N|exact S|apply Permutation_flat_map; exact P].
+  Qed.
+End ObjAllPerm.
+
+Lemma obj_all_map F (g : decl -> decl) : forall l o,
+  obj_all F (map (fun kc => (fst kc, g (snd kc))) l) o = obj_all (fun a => F (g a)) l o.
+Proof.
+  induction l as [|[k a] r IH]; intro o; simpl; [reflexivity|]. destruct (F (g a)); try reflexivity; apply IH.
+Qed.
+
+Lemma obj_all_ext F F' : forall l o, Forall (fun kc => F (snd kc) = F' (snd kc)) l -> obj_all F l o = obj_all F' l o.
+Proof.
+  induction l as [|[k a] r IH]; intros o H; simpl; [reflexivity|]. inversion H as [|? ? Ha Hr]; subst.
+  simpl in Ha. rewrite Ha. destruct (F' a); try reflexivity; apply IH; exact Hr.
+Qed.
+
+Lemma arr_each_ext f f' : forall ns acc, (forall n, f n = f' n) -> arr_each f ns acc = arr_each f' ns acc.
+Proof.
+  induction ns as [|n r IH]; intros acc H; simpl; [reflexivity|]. rewrite H. destruct (f' n); try reflexivity; apply IH; exact H.
+Qed.
+
+Lemma arr_all_map sel G (g : decl -> decl) : forall l acc,
+  Forall (fun a => fst (G (g a)) = fst (G a) /\ forall n, snd (G (g a)) n = snd (G a) n) l ->
+  arr_all sel G (map g l) acc = arr_all sel G l acc.
+Proof.
+  induction l as [|a r IH]; intros acc H; simpl; [reflexivity|]. inversion H as [|? ? [H1 H2] Hr]; subst.
+  rewrite H1. destruct (fst (G a)) as [xp|]; [|apply IH; exact Hr].
+  destruct (sel xp) as [ns|]; [|reflexivity]. rewrite (arr_each_ext _ _ ns acc H2).
+  destruct (arr_each _ ns acc); [apply IH; exact Hr|reflexivity].
+Qed.
+
+Section SortInvariant.
+  Variable root : tree.
+  Variable query : bytes -> path -> option (list path).
+  Variable ext : bytes -> option bytes.
+  Variable fsigs : bytes -> option fsig.
+  Variable fcall : bytes -> path -> list value -> cfres.
+  Variable pcall : bytes -> path -> cfres.
+  Notation spec_tf := (spec_tf root query ext fsigs fcall pcall).
+
+  Lemma spec_at_ext norm cur f g : (forall n, f n = g n) -> spec_at norm cur f = spec_at norm cur g.
+  Proof. intro H. destruct cur as [[n|]|]; simpl; auto. Qed.
+
+  Definition inv (d : decl) : Prop := forall a p, spec_tf (osort d) a p = spec_tf d a p.
+
+  Lemma spec_tf_osort_strong : forall d, decl_nodup d = true ->
+    inv d /\ match d_xdyn_of d with Some q => inv q | None => True end.
+  Proof.
+    induction d as [c e x xd fn args ig pa tm ob ar ty nt kp IHxd IHargs IHob IHar] using decl_ind2.
+    intros Hnd. cbn [decl_nodup] in Hnd. repeat (apply andb_prop in Hnd; destruct Hnd as [Hnd ?]).
+    rename Hnd into Hnxd.
+    match goal with Ha : forallb decl_nodup args = true |- _ => rename Ha into Hnargs end.
+    assert (Hxd : match xd with Some q => inv q | None => True end).
+    { destruct xd as [q|]; [|exact I]. simpl in IHxd. apply (IHxd Hnxd). }
+    split; [|exact Hxd].
+    intros a p. cbn [osort Eval.spec_tf].
+    assert (Hx : match match xd with Some q => Some (osort q) | None => None end with
+                 | Some q => Some (spec_tf q true p) | None => None end
+                 = match xd with Some q => Some (spec_tf q true p) | None => None end).
+    { destruct xd as [q|]; [|reflexivity]. rewrite (Hxd true p). reflexivity. }
+    rewrite Hx. clear Hx.
+    destruct c; [reflexivity|]. destruct e; [reflexivity|].
+    destruct fn as [name|].
+    { apply spec_at_ext. intro n. f_equal. rewrite map_map. apply map_ext_in. intros a0 Hin.
+      rewrite Forall_forall in IHargs. apply IHargs; [exact Hin|]. rewrite forallb_forall in Hnargs. apply Hnargs. exact Hin. }
+    destruct pa; [reflexivity|].
+    destruct ob as [l|].
+    { match goal with Ho : (nodup_keys _ && _)%bool = true |- _ => apply andb_prop in Ho as [Hkeys Hnl] end.
+      apply spec_at_ext. intro n.
+      rewrite (obj_all_perm _ _ (map (fun kc => (fst kc, osort (snd kc))) l) []).
+      - rewrite obj_all_map. rewrite (obj_all_ext _ (fun a0 => spec_tf a0 true n)); [reflexivity|].
+        simpl in IHob. apply Forall_forall. intros kc Hin. rewrite Forall_forall in IHob. apply IHob; [exact Hin|].
+        rewrite forallb_forall in Hnl. apply Hnl. exact Hin.
+      - eapply Permutation_NoDup; [apply Permutation_map, Permutation_sym, sort_members_perm|].
+        rewrite map_map. simpl. apply nodup_keys_NoDup. exact Hkeys.
+      - exact I.
+      - apply sort_members_perm. }
+    destruct ar as [l|]; [|reflexivity].
+    match goal with Ha : forallb decl_nodup l = true |- _ => rename Ha into Hnl end.
+    rewrite arr_all_map; [reflexivity|].
+    simpl in IHar. apply Forall_forall. intros a0 Hin. rewrite Forall_forall in IHar.
+    assert (Hn0 : decl_nodup a0 = true) by (rewrite forallb_forall in Hnl; apply Hnl; exact Hin).
+    destruct (IHar a0 Hin Hn0) as [Ha0 Hq0].
+    split.
+    - destruct a0 as [c0 e0 x0 xd0 fn0 args0 ig0 pa0 tm0 ob0 ar0 ty0 nt0 kp0].
+      cbn [osort fst d_xdyn_of] in *. f_equal.
+      destruct xd0 as [q|]; [|reflexivity]. rewrite (Hq0 true p). reflexivity.
+    - intro n. destruct a0 as [c0 e0 x0 xd0 fn0 args0 ig0 pa0 tm0 ob0 ar0 ty0 nt0 kp0].
+      cbn [snd]. apply (Ha0 false n).
+  Qed.
+
+  Theorem spec_tf_osort : forall d, decl_nodup d = true -> forall a p, spec_tf (osort d) a p = spec_tf d a p.
+  Proof. intros d H. apply (proj1 (spec_tf_osort_strong d H)). Qed.
+End SortInvariant.
